@@ -39,6 +39,13 @@ def handler(body):
 
 
 HAND_RAW = {
+ # a loop whose head is the function's own label: the entry node is not passed again
+ "loop_to_function_label": "main:\n    li a0, 3\n    jal ra, f\n" + EXIT + "f:\n    addi s0, s0, 1\n    addi a0, a0, -1\n    bnez a0, f\n    ret\n",
+ # control-flow shapes: several returns, a loop nest, a branch to the next line, a backward jump over a call
+ "three_returns": "main:\n    jal ra, f\n" + EXIT + "f:\n    beqz a0, r2\n    bnez a1, r3\n    ret\nr2:\n    li a0, 2\n    ret\nr3:\n    li a0, 3\n    ret\n",
+ "loop_nest": "main:\n    li t0, 3\nouter:\n    li t1, 2\ninner:\n    addi t1, t1, -1\n    bnez t1, inner\n    addi t0, t0, -1\n    bnez t0, outer\n" + EXIT,
+ "branch_to_next": "main:\n    beq t0, t1, next\nnext:\n    bne t0, t1, next\n    j end\n    nop\nend:\n" + EXIT,
+ "back_over_call": "main:\n    li s0, 2\nagain:\n    jal ra, f\n    addi s0, s0, -1\n    bgtz s0, again\n" + EXIT + "f:\n    ret\n",
  # two call sites with different needs, and a callee that calls on
  "two_call_sites": "main:\n    li a0, 1\n    li a1, 2\n    jal ra, f\n    mv s0, a0\n    li a0, 3\n    li a1, 4\n    jal ra, f\n    add a0, s0, a1\n" + EXIT + "f:\n    add a0, a0, a1\n    li a1, 9\n    ret\n",
  "nested_calls": "main:\n    li a0, 1\n    li a3, 2\n    jal ra, f\n    mv t0, a0\n" + EXIT + "f:\n    addi sp, sp, -4\n    sw ra, 0(sp)\n    addi a0, a0, 1\n    jal ra, g\n    lw ra, 0(sp)\n    addi sp, sp, 4\n    ret\ng:\n    add a0, a0, a3\n    ret\n",
@@ -121,7 +128,7 @@ def families(tier="quick"):
                      "text": ".data\ndata: .word 1, 2\n.text\n" + wrap([B[i] for i in c])}
                     for c in itertools.product(range(len(B)), repeat=k)]
     # environment calls with a known service number (what the service reads and writes), and CSR instructions
-    S = [1, 4, 5, 8, 9, 11, 12, 30, 34, 93, 10]
+    S = [1, 4, 5, 8, 9, 11, 12, 30, 34, 93, 10, 51, 52, 2]   # 51, 52, 2: constants the tool's table does not list
     PRE = ["li a0, 3", "li a1, 4", "mv a0, t0", "nop"]
     POST = ["mv t1, a0", "mv t1, a1", "add t1, a0, a1", "nop"]
     fam["ecall"] = [{"name": "ecall_%d_%x_%x" % (n, i, j),
@@ -138,20 +145,28 @@ def families(tier="quick"):
     # nor an overwrite of the register it is described by
     C2 = ["csrrw t1, uscratch, t0", "csrrs t2, uscratch, t0", "csrrc zero, uscratch, t1", "csrrwi zero, uscratch, 1",
           "csrrsi t1, uscratch, 2", "csrrs t1, uscratch, zero", "li t0, 16", "mv t3, t1", "csrrw t0, uscratch, t0"]
-    fam["csr2"] = [{"name": "csr2_%x_%x_%x" % c, "text": wrap([C2[c[0]], C2[c[1]], C2[c[2]]])}
-                   for c in itertools.product(range(len(C2)), repeat=3)]
+    d = 3 if tier == "quick" else 4
+    fam["csr2"] = [{"name": "csr2_" + "_".join("%x" % i for i in c), "text": wrap([C2[i] for i in c])}
+                   for c in itertools.product(range(len(C2)), repeat=d)]
     # argument / return-value traffic across a call: (before, after) in the caller x every 2-instruction callee body
-    P1 = ["li a0, 1", "li a2, 2", "li s1, 3", "nop"]
-    P2 = ["mv t0, a0", "mv t0, a1", "add t0, a0, s1", "mv t0, a2", "nop"]
+    P1 = ["li a0, 1", "li a2, 2", "li s1, 3", "nop", "li gp, 64"]
+    P2 = ["mv t0, a0", "mv t0, a1", "add t0, a0, s1", "mv t0, a2", "nop", "add t0, a0, gp"]
     FB = ["mv a0, a2", "add a0, a0, a1", "li a0, 5", "mv t1, a3", "li a1, 7", "nop", "mv s1, a0"]
-    fam["callret"] = [{"name": "callret_%x_%x_%x_%x" % c,
-                       "text": "main:\n    %s\n    jal ra, f\n    %s\n" % (P1[c[0]], P2[c[1]]) + EXIT + "f:\n    %s\n    %s\n    ret\n" % (FB[c[2]], FB[c[3]])}
-                      for c in itertools.product(range(len(P1)), range(len(P2)), range(len(FB)), range(len(FB)))]
+    fb = 2 if tier == "quick" else 3
+    fam["callret"] = [{"name": "callret_%x_%x_" % c[:2] + "_".join("%x" % i for i in c[2:]),
+                       "text": "main:\n    %s\n    jal ra, f\n    %s\n" % (P1[c[0]], P2[c[1]]) + EXIT + "f:\n" + "".join("    %s\n" % FB[i] for i in c[2:]) + "    ret\n"}
+                      for c in itertools.product(range(len(P1)), range(len(P2)), *([range(len(FB))] * fb))]
+    # control-flow shapes: three slots between three labels, each a branch / jump / call / exit / plain instruction
+    CF = ["nop", "beqz t0, L1", "bnez t1, L2", "blt t0, t1, L3", "bgeu t1, t0, L1", "j L1", "j L2", "j L3", "jal ra, f",
+          "li a7, 93\n    ecall", "li a7, 1\n    ecall", "li t0, 1"]
+    fam["cfg"] = [{"name": "cfg_%x_%x_%x" % c,
+                   "text": "main:\n    %s\nL1:\n    %s\nL2:\n    %s\nL3:\n" % (CF[c[0]], CF[c[1]], CF[c[2]]) + EXIT + "f:\n    beqz a0, early\n    li a0, 1\n    ret\nearly:\n    ret\n"}
+                  for c in itertools.product(range(len(CF)), repeat=3)]
     # interrupt handlers: every 3-instruction body between the two uscratch swaps; a store is only
     # generated while a0 holds the save-area pointer (a store through the interrupted program's a0
     # could alias the save area: the analysis assumes tracked memory is reached only through its base)
     HB = ["sw t0, 0(a0)", "lw t0, 0(a0)", "sw t1, 4(a0)", "lw t1, 4(a0)", "li t0, 5", "mv t1, t0", "csrrw t2, uscratch, zero",
-          "csrrw a0, uscratch, a0", "lw t1, 0(a0)"]
+          "csrrw a0, uscratch, a0", "lw t1, 0(a0)", "sw zero, 0(a0)", "sb t1, 0(a0)"]
 
     def stores_only_through_save_area(c):
         swapped = False
@@ -161,8 +176,8 @@ def families(tier="quick"):
             elif HB[i].startswith("sw") and swapped:
                 return False
         return True
-    fam["handler"] = [{"name": "handler_%x_%x_%x" % c, "text": handler([HB[i] for i in c])}
-                      for c in itertools.product(range(len(HB)), repeat=3) if stores_only_through_save_area(c)]
+    fam["handler"] = [{"name": "handler_" + "_".join("%x" % i for i in c), "text": handler([HB[i] for i in c])}
+                      for c in itertools.product(range(len(HB)), repeat=d) if stores_only_through_save_area(c)]
     # the two alphabets interleaved
     fam["mix"] = [{"name": "mix_%x_%x_%x" % c, "text": ".data\ndata: .word 1, 2\n.text\n" + wrap([A[c[0]], B[c[1]], A[c[2]]])}
                   for c in itertools.product(range(len(A)), range(len(B)), range(len(A)))]
